@@ -16,7 +16,7 @@ var TypeForms = []string{
 	"\"x\" // {or: [{type: \"%a\", nullable: true}, {type: \"string\"}]}",
 	"{} // {allOf: \"%a\"}", "{ // {allOf: [\"%a\", \"%b\"]}\n  \"own\": 1\n}", "{} // {additionalProperties: \"%a\"}", "{ // {additionalProperties: \"%a\"}\n  %b: 1\n}",
 	"1", "\"kk\"", "{}", "[]", "null", "{\"a\": {\"b\": [%a]}}", "1 // {enum: @e}", "1 // {enum: %a}", "%a // {nullable: true}", "%a // {type: \"%b\"}", "%a // {or: [\"%b\"]}",
-	"{\"k\": %a | %b // {optional: true}\n}", "", " ", "# only a comment", "/^k+$/",
+	"{\"k\": %a | %b // {optional: true}\n}", "", " ", "# only a comment", "/^k+$/", "/a^b/", "/\\Bk/",
 	// several rule-sets that each name a type beside a further rule (kept as unnamed types)
 	"1 // {or: [{type: \"%a\", nullable: true}, {type: \"%b\", nullable: true}]}", "\"kk\" // {or: [{type: \"%b\", nullable: true}, {type: \"@c\", nullable: false}, {type: \"%a\", nullable: true}]}",
 	// empty containers that are "this or something else" (they can be referred to, inherited from, listed)
